@@ -156,6 +156,21 @@ package route
 //@   ghostset after Wait: hkWaited = true
 //@   top-ensures hkWaited
 
+// ---- C19 (is tracing on at all): initTrace switches tracing off only when no tracer is registered; the trace level
+// filters which stage events are recorded, it never removes the start/finish pair of a request.
+//@ interface tracer.Controller.Append(this, col)
+//@ interface tracer.Controller.HasTracer(this) r
+//@ ghost var itHas bool
+//@ func initTrace(engine) r
+//@   props C19
+//@   requires engine != nil && engine.options != nil
+//@   modifies engine.enableTrace, itHas
+//@   ghostset-at-entry itHas = false
+//@   ghostset after HasTracer: itHas = result
+//@   top-ensures itHas ==> engine.enableTrace == old(engine.enableTrace)
+//@   loop 0:
+//@     invariant engine.enableTrace == old(engine.enableTrace) && !itHas
+
 // ---- C12 (dispatch): the engine runs handlers only through the chain interpreter: it installs a chain
 // (SetHandlers) and then calls Next, or goes through serveError, which does the same; it never calls a handler
 // value itself (a handler entered outside Next runs with the chain index still at -1 and can be entered again).
